@@ -695,10 +695,10 @@ func generateTables(source *syntax.Model, out *grammar.Grammar, opts genOptions,
 func addTypes(vars *grammar.ActionVars, syms []grammar.Symbol) {
 	vars.Types = make(map[int]string)
 	for _, ref := range vars.CmdArgs.ArgRefs {
-		if ref.Symbol < len(syms) {
+		if ref.Symbol >= 0 && ref.Symbol < len(syms) {
 			vars.Types[ref.Pos] = syms[ref.Symbol].Type
 		} else {
-			// No types for extracted commands.
+			// No types for extracted commands and for sets that are expanded later (Symbol == -1).
 			vars.Types[ref.Pos] = ""
 		}
 	}
